@@ -199,15 +199,16 @@ PROPS = {
         "level_note": "The implementation evaluates declination/eqtime at each event's own first-pass "
                       "time; the two-pass drift is not bounded by a theorem (chain_order_two_pass is "
                       "left unproved) — the correspondence and the direct search cover it.",
-        "lean_modules": ["Astral.Props.C06"],
-        "theorems": [
+        "lean_modules": ["Astral.Props.C06", "Astral.Props.EoTStep", "Astral.Props.DeclStep"],
+        "theorems": ["Astral.DeclStep.declination_step", "Astral.DeclStep.lam_step", "Astral.DeclStep.center_step", "Astral.DeclStep.arcsin_lip", "Astral.EoTStep.eqOfTime_step",
+            
             "Astral.C06.hourAngle_ok", "Astral.C06.hourAngle_strictMono", "Astral.C06.hourAngle_setting_neg",
             "Astral.C06.hourAngle_sign", "Astral.C06.event_order", "Astral.C06.wrap_is_one_day",
             "Astral.C06.zEff_lt", "Astral.C06.chain_gaps",
         ],
         "groups": [G("corr_norm", "norm", 1000, 30000), G("corr_loc", "location", 800, 15000), G("corr_sun", "hour_angle", 3000, 60000), G("corr_sun", "transit", 2500, 60000),
                    G("corr_sun", "sun_events", 2500, 60000), G("corr_sun", "refraction", 1000, 20000)],
-        "unproved": ["order of events computed with per-event declination (two-pass drift)"],
+        "unproved": ["order of events computed with per-event declination (two-pass drift): the inputs of the drift are bounded — declination ≤ 0.46°/day (DeclStep.declination_step), equation of time ≤ 0.53 min/day (EoTStep.eqOfTime_step) — but turning them into a bound on the event times needs ∂H/∂δ, which is unbounded at the polar circles"],
         "assumes": ["shared declination and equation of time for one solar day",
                     "cos(lat)·cos(decl) > 0 (latitude clamped to ±89.8°)"],
     },
@@ -309,7 +310,7 @@ PROPS = {
             "Astral.C05Noon.noon_total",
             "Astral.C05Noon.midnight_total",
         ],
-        "groups": [G("corr_loc", "location", 800, 15000), G("corr_sun", "sun_events", 4500, 100000), G("corr_sun", "sun_chain", 1400, 30000)],
+        "groups": [G("corr_loc", "location", 800, 15000), G("corr_norm", "norm", 1200, 30000), G("corr_sun", "sun_events", 4500, 100000), G("corr_sun", "sun_chain", 1400, 30000)],
         "unproved": ["hour angle within 0.25° of 0 / 180 by an independent ephemeris",
                      ],
         "assumes": [],
